@@ -12,6 +12,7 @@ global/nonlocal, no nested function definitions):
   statement  `x = self.h(a…)` / `return self.h(a…)`      -> body, final `return e` -> `x = e` / `return e`
   generator  `yield from self.h(a…)` / `for v in self.h(a…): yield v`  -> body (its yields become the caller's)
   expression `self.h(a…)` where h is a single `return e`  -> e
+  condition  `if [pre and] h(a…) [and post]: B1 else: B2` -> body of h, each `return e` continued by `if e [and post]: B1 else: B2`
 Early `return`s of the helper are allowed when they sit in `if` statements outside any loop of the helper: `if c: return`
 followed by S becomes `if c: pass` / `else: S`."""
 import ast
@@ -57,7 +58,8 @@ def _helper_of(P, f, call):
             if mod.relpath.startswith("spydrnet/ir/"):
                 cands = [ci.methods[fn.attr] for ci in P.ir_classes.values() if fn.attr in ci.methods]
             else:
-                cands = [ci.methods[fn.attr] for ci in mod.classes.values() if fn.attr in ci.methods]
+                cands = [ci.methods[fn.attr] for ci in mod.classes.values() if fn.attr in ci.methods] or \
+                        [ci.methods[fn.attr] for ci in P.ir_classes.values() if fn.attr in ci.methods]
             cands = [c for c in cands if c.role == "method"]
             if len(cands) == 1:
                 return cands[0], base
@@ -150,7 +152,9 @@ def _bind(h, base, call, tag):
     if h.role == "method":
         if base is None:
             return None
-        args = [ast.Name(id=base if base != h.cls.name else "self", ctx=ast.Load())] + args
+        if base != h.cls.name:
+            args = [ast.Name(id=base, ctx=ast.Load())] + args
+        # C.h(obj, a…): the receiver is written out as the first argument
     if any(isinstance(a, ast.Starred) for a in args) or any(k.arg is None for k in call.keywords):
         return None
     bound = dict(zip(params, args))
@@ -188,10 +192,14 @@ def _body_copy(h, subst):
     return [subst.visit(st) for st in body]
 
 
+EAGER = {"list": "append", "tuple": "append", "sorted": "append", "set": "add", "frozenset": "add"}
+
+
 class _Inliner:
-    def __init__(self, P, f, keep=()):
+    def __init__(self, P, f, keep=(), eager_only=False):
         self.P, self.f = P, f
         self.keep = keep
+        self.eager_only = eager_only  # splice nothing but generator helpers that are consumed on the spot
         self.globals = set()
         self.count = 0
         self.inlined = []
@@ -206,14 +214,14 @@ class _Inliner:
             return None, None  # an anchor the calling rule reasons about by name
         return h, base
 
-    def splice(self, call, on_return, need_value=False, generator=False):
+    def splice(self, call, on_return, need_value=False, generator=False, tail=False):
         h, base = self.helper(call)
         if h is None:
             return None
         is_gen = any(isinstance(x, (ast.Yield, ast.YieldFrom)) for x in walk_local(h.node))
         if is_gen != generator:
             return None
-        if not _returns_outside_loops_only(h.node.body):
+        if not tail and not _returns_outside_loops_only(h.node.body):
             return None
         self.count += 1
         b = _bind(h, base, call, "i%d" % self.count)
@@ -224,10 +232,13 @@ class _Inliner:
         for st in h.node.body:
             if isinstance(st, ast.Global):
                 self.globals.update(st.names)
-        new, falls = _structure_returns(body, on_return)
-        if need_value and falls:
-            # falling off the end returns None
-            new = new + on_return(None, call) if not new or not isinstance(new[-1], ast.If) else new
+        if need_value and not (body and isinstance(body[-1], ast.Return)):
+            body = body + [ast.copy_location(ast.Return(value=None), call)]  # falling off the end returns None
+        if tail:
+            # `return h(a…)`: the helper's returns are the caller's returns, wherever they sit (inside its loops too)
+            new = body
+        else:
+            new, falls = _structure_returns(body, on_return)
         self.inlined.append(h.qualname)
         return prelude + (new or [ast.Pass()])
 
@@ -243,7 +254,8 @@ class _Inliner:
                 if isinstance(st, ast.Try):
                     for hd in st.handlers:
                         hd.body = self.stmts(hd.body, depth)
-                self.exprs(st)
+                if not self.eager_only:
+                    self.exprs(st)
                 out.append(st)
             else:
                 out.extend(self.stmts(rep, depth + 1) if depth + 1 < MAX_DEPTH else rep)
@@ -252,19 +264,156 @@ class _Inliner:
     def one(self, st, depth):
         def loc(n):
             return ast.fix_missing_locations(ast.copy_location(n, st))
+        rep = self.eager(st, loc)
+        if rep is not None or self.eager_only:
+            return rep
         if isinstance(st, ast.Expr) and isinstance(st.value, ast.Call):
             return self.splice(st.value, lambda e, at: ([loc(ast.Expr(value=e))] if e is not None and not isinstance(e, ast.Constant) else []))
         if isinstance(st, ast.Assign) and len(st.targets) == 1 and isinstance(st.value, ast.Call):
             tgt = st.targets[0]
             return self.splice(st.value, lambda e, at: [loc(ast.Assign(targets=[copy_tree(tgt)], value=e if e is not None else ast.Constant(value=None)))], need_value=True)
         if isinstance(st, ast.Return) and isinstance(st.value, ast.Call):
-            return self.splice(st.value, lambda e, at: [loc(ast.Return(value=e))], need_value=True)
+            return self.splice(st.value, lambda e, at: [loc(ast.Return(value=e))], need_value=True, tail=True)
+        if isinstance(st, ast.If):
+            rep = self.branch_condition(st, loc)
+            if rep is not None:
+                return rep
         if isinstance(st, ast.Expr) and isinstance(st.value, ast.YieldFrom) and isinstance(st.value.value, ast.Call):
             return self.splice(st.value.value, lambda e, at: [], generator=True)
         if isinstance(st, ast.For) and isinstance(st.iter, ast.Call) and len(st.body) == 1 and isinstance(st.body[0], ast.Expr) \
                 and isinstance(st.body[0].value, ast.Yield) and norm(st.body[0].value.value) == norm(st.target) and not st.orelse:
             return self.splice(st.iter, lambda e, at: [], generator=True)
         return None
+
+    def eager(self, st, loc):
+        """a generator helper consumed on the spot:
+             T = list(h(a…)) / return list(h(a…))    ->  acc = []; <body of h, `yield e` -> acc.append(e)>; T = acc
+             X.extend(h(a…)) / X.update(h(a…))       ->  <body of h, `yield e` -> X.append(e) / X.add(e)>
+             for v in h(a…): BODY                    ->  <body of h, `yield e` -> v = e; BODY>      (BODY without break; the order of
+                                                          operations is the one lazy evaluation gives)"""
+        wrap = acc = None
+        call = None
+        if isinstance(st, (ast.Assign, ast.Return)) and isinstance(st.value, ast.Call) and isinstance(st.value.func, ast.Name) \
+                and st.value.func.id in EAGER and len(st.value.args) == 1 and not st.value.keywords and isinstance(st.value.args[0], ast.Call) \
+                and (isinstance(st, ast.Return) or len(st.targets) == 1):
+            call, wrap = st.value.args[0], st.value.func.id
+        elif isinstance(st, ast.Expr) and isinstance(st.value, ast.Call) and isinstance(st.value.func, ast.Attribute) \
+                and st.value.func.attr in ("extend", "update") and len(st.value.args) == 1 and not st.value.keywords \
+                and isinstance(st.value.args[0], ast.Call) and _simple_arg(st.value.func.value):
+            call, acc = st.value.args[0], st.value.func.value
+        elif isinstance(st, ast.For) and isinstance(st.iter, ast.Call) and not st.orelse and getattr(self, "for_loops", True) \
+                and not (len(st.body) == 1 and isinstance(st.body[0], ast.Expr) and isinstance(st.body[0].value, ast.Yield)):
+            call = st.iter
+        if call is None:
+            return None
+        h, base = self.helper(call)
+        if h is None or not any(isinstance(x, (ast.Yield, ast.YieldFrom)) for x in walk_local(h.node)):
+            return None
+        if any(isinstance(x, (ast.YieldFrom, ast.Try, ast.With, ast.Return)) for x in walk_local(h.node)):
+            return None
+        if any(isinstance(x, ast.Yield) and not isinstance(getattr(x, "_parent", None), ast.Expr) for x in walk_local(h.node)):
+            return None  # the value of a yield expression is used (send protocol)
+        self.count += 1
+        tag = "g%d" % self.count
+        if isinstance(st, ast.For):
+            from .unroll import _level_jumps, _structure
+            jumps, hard = _level_jumps(st.body)
+            if hard or any(isinstance(j, ast.Break) for j in jumps):
+                return None
+            body_t, _ = _structure([copy_tree(x) for x in st.body], lambda kind: [])
+            tgt = st.target
+            stored_h = {n.id for n in ast.walk(h.node) if isinstance(n, ast.Name) and isinstance(n.ctx, (ast.Store, ast.Del))}
+
+            def emit(e, at):
+                asg = ast.Assign(targets=[copy_tree(tgt)], value=e)
+                ast.copy_location(asg, at)
+                return [ast.fix_missing_locations(asg)] + [copy_tree(x) for x in body_t]
+        else:
+            if acc is None:
+                accname = "acc__%s" % tag
+                acc = ast.Name(id=accname, ctx=ast.Load())
+                meth = EAGER[wrap]
+            else:
+                meth = "append" if st.value.func.attr == "extend" else "add"
+
+            def emit(e, at):
+                c = ast.Expr(value=ast.Call(func=ast.Attribute(value=copy_tree(acc), attr=meth, ctx=ast.Load()), args=[e], keywords=[]))
+                ast.copy_location(c, at)
+                return [ast.fix_missing_locations(c)]
+        b = _bind(h, base, call, tag)
+        if b is None:
+            return None
+        prelude, subst = b
+        body = _body_copy(h, subst)
+
+        class Y(ast.NodeTransformer):
+            def visit_Expr(self, n):
+                if isinstance(n.value, ast.Yield):
+                    return emit(n.value.value if n.value.value is not None else ast.Constant(value=None), n)
+                return n
+
+            def visit_FunctionDef(self, n):
+                return n
+        new = []
+        for x in body:
+            r = Y().visit(x)
+            new.extend(r if isinstance(r, list) else [r])
+        self.inlined.append(h.qualname)
+        if isinstance(st, ast.For):
+            return prelude + new
+        if wrap is None:
+            return prelude + new
+        init = ast.Assign(targets=[ast.Name(id=acc.id, ctx=ast.Store())], value=ast.List(elts=[], ctx=ast.Load()) if meth == "append" else
+                          ast.Call(func=ast.Name(id="set", ctx=ast.Load()), args=[], keywords=[]))
+        val = copy_tree(acc) if wrap in ("list", "set") else ast.Call(func=ast.Name(id=wrap, ctx=ast.Load()), args=[copy_tree(acc)], keywords=[])
+        fin = ast.Return(value=val) if isinstance(st, ast.Return) else ast.Assign(targets=[copy_tree(st.targets[0])], value=val)
+        return prelude + [loc(init)] + new + [loc(fin)]
+
+    def branch_condition(self, st, loc):
+        """`if [pre and] h(a…) [and post]: B1 else: B2` with h a multi-statement predicate helper: h's body is spliced in with every
+        `return e` continued by `if e [and post]: B1 else: B2` (constant results pick the branch directly).  `not h(a…)` swaps the
+        branches.  The helper runs exactly when it did before: after `pre` held, before `post` is looked at."""
+        test, neg = st.test, False
+        if isinstance(test, ast.UnaryOp) and isinstance(test.op, ast.Not):
+            test, neg = test.operand, True
+        conj = list(test.values) if isinstance(test, ast.BoolOp) and isinstance(test.op, ast.And) else [test]
+        if neg and len(conj) > 1:
+            return None
+        idx = None
+        for i, c in enumerate(conj):
+            h, base = self.helper(c)
+            if h is None:
+                continue
+            hb = [s_ for s_ in h.node.body if not (isinstance(s_, ast.Expr) and isinstance(s_.value, ast.Constant))]
+            if len(hb) == 1 and isinstance(hb[0], ast.Return):
+                continue  # single-expression helpers are substituted in place by exprs()
+            idx = i
+            break
+        if idx is None:
+            return None
+        pre, post = conj[:idx], conj[idx + 1:]
+        b1, b2 = (st.orelse, st.body) if neg else (st.body, st.orelse)
+
+        def conj_of(parts):
+            return parts[0] if len(parts) == 1 else loc(ast.BoolOp(op=ast.And(), values=parts))
+
+        def on_true():
+            if post:
+                return [loc(ast.If(test=copy_tree(conj_of(post)), body=copy_tree(b1) or [loc(ast.Pass())], orelse=copy_tree(b2)))]
+            return copy_tree(b1)
+
+        def on_return(e, at):
+            if e is None or (isinstance(e, ast.Constant) and not e.value):
+                return copy_tree(b2) or [loc(ast.Pass())]
+            if isinstance(e, ast.Constant):
+                return on_true() or [loc(ast.Pass())]
+            return [loc(ast.If(test=e, body=on_true() or [loc(ast.Pass())], orelse=copy_tree(b2)))]
+        rep = self.splice(conj[idx], on_return, need_value=True)
+        if rep is None:
+            return None
+        if pre:
+            return [loc(ast.If(test=conj_of(pre), body=rep, orelse=copy_tree(b2)))]
+        return rep
 
     def exprs(self, st):
         """expression-position calls to single-expression helpers"""
@@ -296,6 +445,26 @@ class _Inliner:
 _cache = {}
 
 
+def eager_generators_inlined(P, f):
+    """f's definition with private generator helpers that are consumed on the spot (list(h(…)), X.extend(h(…))) spliced in, or
+    None when there is nothing to splice.  Used once, at load time: every rule then sees the container being built in place."""
+    if not any(isinstance(x, ast.Call) and ((isinstance(x.func, ast.Name) and x.func.id in EAGER) or
+                                            (isinstance(x.func, ast.Attribute) and x.func.attr in ("extend", "update")))
+               and len(x.args) == 1 and isinstance(x.args[0], ast.Call) for x in walk_local(f.node)):
+        return None
+    node = copy_tree(f.node)
+    for parent in ast.walk(node):
+        for child in ast.iter_child_nodes(parent):
+            child._parent = parent
+    inl = _Inliner(P, f, (), eager_only=True)
+    inl.for_loops = False
+    node.body = inl.stmts(node.body, 0)
+    if not inl.inlined:
+        return None
+    ast.fix_missing_locations(node)
+    return node, sorted(set(inl.inlined))
+
+
 def inlined_view(P, f, keep=()):
     """FuncInfo of f with private helpers spliced in (f itself when there is nothing to splice); helpers named in `keep`
     (a set of names or a predicate on the name) stay calls — they are the anchors the calling rule reasons about"""
@@ -308,6 +477,10 @@ def inlined_view(P, f, keep=()):
     if not inl.inlined:
         _cache[key] = f
         return f
+    # a helper that picks constants (attribute / method names) by a test, spliced in: the code that follows is read once per choice
+    from .unroll import specialise, _Choice
+    node.body = specialise(node.body)
+    _Choice().visit(node)
     have = {n_ for st in node.body if isinstance(st, ast.Global) for n_ in st.names}
     if inl.globals - have:
         node.body.insert(0, ast.copy_location(ast.Global(names=sorted(inl.globals - have)), node.body[0]))
